@@ -1095,8 +1095,10 @@ class Interpreter(InterpreterBase, HoldableObject):
                 try:
                     subi.run()
                 except Exception:
-                    # Same as above, for everything read until the failure
-                    self.build_def_files.update(subi.get_build_def_files())
+                    # Same as above, for everything read until the failure (a
+                    # subdir() registers its meson.build before it finds it missing)
+                    self.build_def_files.update(f for f in subi.get_build_def_files()
+                                                if os.path.isfile(os.path.join(self.source_root, f)))
                     raise
                 subi_warnings = mlog.get_warning_count()
             mlog.log('Subproject', mlog.bold(subp_name), 'finished.')
